@@ -772,12 +772,34 @@ func ruleExitPass(c *Ctx, r *Rep) {
 			}
 			n++
 			key := "exitpass:" + declKey(fd)
-			// the body's first statement returns the call
+			// the body returns the call — directly, or through a variable assigned from it — and does so unconditionally:
+			// no branch in the body
 			good := false
-			if len(ifs.Body.List) > 0 {
-				if rs, ok := ifs.Body.List[0].(*ast.ReturnStmt); ok && len(rs.Results) == 1 {
-					if call, ok := unparen(rs.Results[0]).(*ast.CallExpr); ok {
-						if sel, ok := call.Fun.(*ast.SelectorExpr); ok && sel.Sel.Name == "ExitCode" {
+			isExitCall := func(e ast.Expr) bool {
+				call, ok := unparen(e).(*ast.CallExpr)
+				if !ok {
+					return false
+				}
+				sel, ok := call.Fun.(*ast.SelectorExpr)
+				return ok && sel.Sel.Name == "ExitCode"
+			}
+			var held types.Object
+			branches := false
+			for _, st := range ifs.Body.List {
+				switch x := st.(type) {
+				case *ast.AssignStmt:
+					if len(x.Lhs) == 1 && len(x.Rhs) == 1 && isExitCall(x.Rhs[0]) {
+						if id, ok := x.Lhs[0].(*ast.Ident); ok {
+							held = info.ObjectOf(id)
+						}
+					}
+				case *ast.IfStmt, *ast.SwitchStmt, *ast.ForStmt:
+					branches = true
+				case *ast.ReturnStmt:
+					if len(x.Results) == 1 && !branches {
+						if isExitCall(x.Results[0]) {
+							good = true
+						} else if id, ok := unparen(x.Results[0]).(*ast.Ident); ok && held != nil && info.ObjectOf(id) == held {
 							good = true
 						}
 					}
